@@ -139,3 +139,24 @@ pub fn position_or_len(v: &Vec<Item>, pos: BytePos) -> (r: usize)
     ensures r <= v@.len(), r < v@.len() ==> pos.0 <= v@[r as int].span.end.0,
             forall|i: int| 0 <= i < r ==> pos.0 > (#[trigger] v@[i]).span.end.0
 { unimplemented!() }
+
+// ---- get_metadata: `record.field` where `record` is a known binding: the metadata of that field, if any
+#[verifier::external_body] pub struct SymStr { _p: () }
+impl SymStr { #[verifier::external_body] pub fn as_str(&self) -> (r: &str) { unimplemented!() } }
+pub struct IdentX { pub name: Sym }
+// Arc<Metadata> projected on its `module` map (field name -> metadata of that field); std map semantics: `get` is total,
+// indexing (`map[key]`) panics on a missing key -- stated as the precondition of the named method (R-index)
+#[verifier::external_body] pub struct ModuleMap { _p: () }
+pub struct MetaArc { pub module: ModuleMap }
+impl ModuleMap {
+    pub uninterp spec fn has(&self, k: &str) -> bool;
+    #[verifier::external_body]
+    pub fn get(&self, k: &str) -> (r: Option<&MetaArc>) ensures r is Some <==> self.has(k) { unimplemented!() }
+    #[verifier::external_body]
+    pub fn index(&self, k: &str) -> (r: &MetaArc) requires self.has(k) { unimplemented!() }
+}
+#[verifier::external_body] pub struct MetaEnv { _p: () }
+impl MetaEnv {
+    #[verifier::external_body]
+    pub fn get(&self, k: &Sym) -> (r: Option<&MetaArc>) { unimplemented!() }
+}
